@@ -390,7 +390,8 @@ pub fn drive_bursts(ctx: &mut Ctx, rng: &mut Rng, thorough: bool) {
 
 /// C09 (spec -> code): arrival interleavings enumerated by TLC from Server.tla.
 /// A behaviour is {"B": batch size, "pre": [kinds], "inj": [[after_recv, kind], ...]} with kinds
-/// "C" valid classic, "I" valid IETF, "X" invalid; sources are taken round-robin from 3 sockets,
+/// "C" valid classic, "I" valid IETF, "X" invalid, "U" valid classic from an unroutable source (raw socket,
+/// source port 0: the response cannot be sent); sources are taken round-robin from 3 sockets,
 /// with every third request reusing socket 0.
 pub fn replay_interleavings(ctx: &mut Ctx, rng: &mut Rng, path: &str) -> u64 {
     let f = std::fs::File::open(path).expect("open behaviours");
@@ -404,6 +405,7 @@ pub fn replay_interleavings(ctx: &mut Ctx, rng: &mut Rng, path: &str) -> u64 {
     for c in lines {
         let b = c["B"].as_u64().unwrap_or(1);
         if current.as_ref().map(|(cb, _)| *cb) != Some(b) {
+            if let Some((_, r)) = current.as_ref() { let st = r.stats_event(); ctx.emit(st); }
             current = None;
             if let Some(r) = new_section(ctx, cfg(b as u8, 0, 0, 4)) { current = Some((b, r)); }
         }
@@ -412,8 +414,8 @@ pub fn replay_interleavings(ctx: &mut Ctx, rng: &mut Rng, path: &str) -> u64 {
         let mut k = 0usize;
         let mut mk = |kind: &str, rng: &mut Rng| -> (usize, Vec<u8>) {
             k += 1;
-            let sock = if k % 3 == 0 { 0 } else { k % 3 };
-            let d = match kind { "C" => valid_request(rng, Proto::Google, 1024, None), "I" => valid_request(rng, Proto::Ietf, 1024, Some(&srv)), _ => rng.bytes(1024) };
+            let sock = if kind == "U" { rig::UNROUTABLE } else if k % 3 == 0 { 0 } else { k % 3 };
+            let d = match kind { "C" | "U" => valid_request(rng, Proto::Google, 1024, None), "I" => valid_request(rng, Proto::Ietf, 1024, Some(&srv)), _ => rng.bytes(1024) };
             (sock, d)
         };
         let sends: Vec<(usize, Vec<u8>)> = c["pre"].as_array().map(|a| a.iter().map(|x| mk(x.as_str().unwrap_or("X"), rng)).collect()).unwrap_or_default();
@@ -427,6 +429,7 @@ pub fn replay_interleavings(ctx: &mut Ctx, rng: &mut Rng, path: &str) -> u64 {
         run_round_at(ctx, rig, sends, injections, false);
         n += 1;
     }
+    if let Some((_, r)) = current.as_ref() { let st = r.stats_event(); ctx.emit(st); }
     n
 }
 
@@ -600,6 +603,35 @@ pub fn drive_cfgleak(ctx: &mut Ctx, rng: &mut Rng, workdir: &str) {
                 for (lvl, site, t) in rig::take_logs() {
                     ctx.emit(json!({"ev": "log", "level": lvl, "site": site, "leak": secrets.found_in(t.as_bytes()), "variant": vi}));
                 }
+            }
+        }
+        // YAML files written verbatim: key ORDER and empty / null / boolean / integer values for the text-valued settings that
+        // follow the seed line. Scanned: loader and validator output, and the values the server prints in its start-up banner
+        // and in its bind / directory errors (interface, persistence directory, key-protection id)
+        let raw: Vec<String> = vec![
+            format!("port: 8686\nseed: {}\ninterface:\n", sh),
+            format!("port: 8686\nseed: {}\ninterface: ~\n", sh),
+            format!("port: 8686\nseed: {}\nbatch_size: 7\ninterface: 12\n", sh),
+            format!("interface: 127.0.0.1\nport: 8686\nclient_stats: on\nseed: {}\npersistence_directory:\n", sh),
+            format!("interface: 127.0.0.1\nport: 8686\nclient_stats: on\nseed: {}\nstatus_interval: 5\npersistence_directory: true\n", sh),
+            format!("interface: 127.0.0.1\nport: 8686\nseed: {}\nkms_protection:\n", sh),
+            format!("seed: {}\nport: 8686\ninterface: 127.0.0.1\nclient_stats: on\npersistence_directory: {}\n", sh, workdir),
+            format!("interface: 127.0.0.1\nseed: {}\nport:\n", sh),
+        ];
+        for (ri, text) in raw.iter().enumerate() {
+            let p = format!("{}/leak_raw.yaml", workdir);
+            std::fs::write(&p, text).unwrap();
+            let r = crate::util::guarded(|| match make_config(&p) {
+                Ok(c) => {
+                    let ok = is_valid_config(c.as_ref());
+                    format!("valid={} interface={} persistence_directory={:?} kms_protection={}", ok, c.interface(), c.persistence_directory(), c.kms_protection())
+                }
+                Err(e) => format!("{:?}", e),
+            });
+            let t = match r { Ok(s) => s, Err(p) => p };
+            ctx.emit(json!({"ev": "log", "level": 1, "site": format!("config result / banner values / panic text, verbatim file {}", ri), "leak": secrets.found_in(t.as_bytes())}));
+            for (lvl, site, t) in rig::take_logs() {
+                ctx.emit(json!({"ev": "log", "level": lvl, "site": site, "leak": secrets.found_in(t.as_bytes()), "variant": 100 + ri}));
             }
         }
     }
